@@ -139,10 +139,22 @@ def run_case(chk, r, lpts, kind, shapes, how, index_kind, clash, tag):
         raise RuntimeError("harness could not build frames: " + repr(e))
     cls = ("missing-left/" if any(p is None for p in lpts) else "") + ("missing-right/" if any(s is None for s in shapes) else "") + \
           ("empty-left/" if not lpts else "") + ("empty-right/" if not shapes else "")
+    before = (str(ldf.index.name), str(rdf.index.name), list(map(str, ldf.columns)), list(map(str, rdf.columns)), list(map(str, ldf.index)), list(map(str, rdf.index)))
     try:
         res = sjoin(ldf, rdf, how=how, lsuffix=lsuf, rsuffix=rsuf)
+        # the same frames joined again (a caller looping over `how`): the first call must not have left anything behind in them
+        how2 = {"inner": "right", "left": "inner", "right": "left"}[how]
+        res2 = sjoin(ldf, rdf, how=how2, lsuffix=lsuf, rsuffix=rsuf)
     except Exception as e:  # noqa: BLE001
         chk.violation(f"sjoin/{how}/raises-{common.err_kind(e)}/{cls or 'regular'}", dict(rep, error=repr(e)[:300]), size=sz)
+        return
+    after = (str(ldf.index.name), str(rdf.index.name), list(map(str, ldf.columns)), list(map(str, rdf.columns)), list(map(str, ldf.index)), list(map(str, rdf.index)))
+    if after != before:
+        chk.violation(f"sjoin/{how}/input-frame-modified", dict(rep, before=[before[0], before[1]], after=[after[0], after[1]]), size=sz)
+        return
+    want_name2 = ("lid" if how2 != "right" else "rid") if index_kind == "named" else None
+    if res2.index.name != want_name2 and len(res2.index.names) == 1:
+        chk.violation(f"sjoin/{how2}/index-name-lost/second-call-on-the-same-frames", dict(rep, got=str(res2.index.name), expected=str(want_name2)), size=sz)
         return
     rows = model_join(how, lpts, kind, shapes)
     chk.evaluated(max(1, len(rows)))
